@@ -40,6 +40,9 @@ OPTION_POOL = {
     'output.formatForce': [[], ['body'], ['span', 'a']], 'output.inlineBreak': [0, 1, 2, 3, 5], 'output.compactBoolean': [True, False],
     'output.reverseAttributes': [True, False], 'output.selfClosingStyle': ['html', 'xhtml', 'xml'], 'jsx.enabled': [True, False],
     'inlineElements': [['a', 'b', 'span', 'em'], []], 'output.booleanAttributes': [['checked', 'disabled'], []],
+    # add-ons (not modelled: these cases are judged by the oracle on the implementation only)
+    'bem.enabled': [True, True, False], 'bem.element': ['__', '--'], 'bem.modifier': ['_', '--'], 'comment.enabled': [True, True, False],
+    'comment.after': ['\n<!-- /[#ID][.CLASS] -->', ' <!-- [#ID] -->'], 'comment.before': ['', '<!-- [#ID] -->\n'], 'markup.href': [True],
 }
 SYNTAXES = ['html', 'xml', 'xsl', 'jsx', 'js', 'pug', 'slim', 'haml', 'vue', 'svelte', 'xhtml', 'unknown-syntax']
 
@@ -49,9 +52,10 @@ def rand_cfg(rnd, syntaxes=SYNTAXES, p_opt=.5, with_text=True):
     if rnd.random() < .7: c['syntax'] = rnd.choice(syntaxes)
     if rnd.random() < p_opt:
         c['options'] = {k: rnd.choice(OPTION_POOL[k]) for k in rnd.sample(sorted(OPTION_POOL), rnd.randint(1, 4))}
-    if with_text and rnd.random() < .15: c['text'] = rnd.choice([['foo', '', 'bar'], 'x\ny', [], ['  '], 'single', ['a>b', '$$', ' *3 ']])
+    if with_text and rnd.random() < .15: c['text'] = rnd.choice([['foo', '', 'bar'], 'x\ny', [], ['  '], 'single', ['a>b', '$$', ' *3 '], 'http://emmet.io', 'info@emmet.io', ['www.a.b', 'c@d.e']])
     if rnd.random() < .08: c['maxRepeat'] = rnd.choice([1, 2, 3, 7])
     if rnd.random() < .08: c['context'] = {'name': rnd.choice(['ul', 'p', 'em', 'table', 'div', 'UL'])}
+    if 'context' in c and rnd.random() < .4: c['context']['attributes'] = {'class': rnd.choice(['blk', 'a b', '', 'x__y', 'card card--big'])}
     if rnd.random() < .06: c['variables'] = {'lang': 'ru', 'foo': 'bar'}
     if rnd.random() < .06: c['snippets'] = rnd.choice([{'x': 'p+q'}, {'btn': 'button.btn[type=button]', 'c': '{<!-- ${0} -->}'}, {'a': 'a.x', 'y': 'y>z'}])
     return c
@@ -192,7 +196,7 @@ def compare(case, line, ml):
     low = case['s'].lower().replace('\\', '')
     if 'lorem' in low or 'lipsum' in low: return None      # random text: not modelled
     o = (case['c'].get('options') or {}) if isinstance(case['c'], dict) else {}
-    if o.get('bem.enabled') or o.get('comment.enabled'): return None                   # add-ons not modelled yet
+    if o.get('bem.enabled') or o.get('comment.enabled') or o.get('markup.href'): return None                   # add-ons not modelled yet
     return line == ml
 
 
